@@ -154,10 +154,14 @@ fn mentions_name(s: &S, name: &str) -> bool {
     names.contains(name)
 }
 
-/// Two adjacent function definitions that do not mention each other (independent definitions).
+/// Two adjacent function definitions whose order cannot matter: both are syntactic functions
+/// (values, so evaluation order is not involved), and either neither mentions the other, or both
+/// carry complete annotations (so that type inference does not depend on the order either; for
+/// un-annotated functions that call each other it legitimately does).
 fn independent_fns(a: &Def, b: &Def) -> bool {
     let m = |d: &Def, n: &str| mentions_name(&d.def, n) || d.ann.as_ref().is_some_and(|x| mentions_name(x, n));
-    is_fn(&a.def) && is_fn(&b.def) && !m(a, &b.name) && !m(b, &a.name)
+    let annotated = |d: &Def| d.ann.as_ref().is_some_and(|x| !has_omitted(x));
+    is_fn(&a.def) && is_fn(&b.def) && ((!m(a, &b.name) && !m(b, &a.name)) || (annotated(a) && annotated(b)))
 }
 
 fn walk_lets(s: &S, f: &mut impl FnMut(&Vec<Def>)) {
@@ -312,7 +316,8 @@ fn rewrite(s: &S, root_type: &S, ch: &mut Ch) -> Option<(S, &'static str, bool)>
     let mut used = BTreeSet::new();
     all_names(s, &mut used);
     let n = s.size();
-    let kind = ch.pick(8);
+    // r7 gets a double share: it applies to few programs.
+    let kind = ch.pick(10);
     match kind {
         0 => {
             // r1: consistent renaming of a subset of the binders.
@@ -496,7 +501,7 @@ fn rewrite(s: &S, root_type: &S, ch: &mut Ch) -> Option<(S, &'static str, bool)>
             let below = k > 0;
             Some((map_nth(s, &mut k, &mut |x| sast::ite(S::True, x.clone(), x.clone())), "r6 if true then e else e", below))
         }
-        6 => {
+        6 | 8 | 9 => {
             let pairs = swappable_pairs(s);
             if pairs == 0 {
                 return None;
@@ -766,7 +771,7 @@ pub fn def(tier: Tier) -> CheckDef {
     CheckDef {
         id: "C19",
         level: "exploration",
-        rule: "accepted type-directed generated programs (a quarter annotation-erased), each subjected to 1-4 rewrites at generated sites: r1 consistent renaming of a subset of binders to fresh names from ASCII / keyword-like / non-ASCII pools; r2 redundant parentheses around any node; r3 an unused definition (value and non-value, annotated or not) wrapped around any node or inserted at any position of an existing group; r4 a node named by a definition (with and without annotation); r5 a node wrapped in an immediately applied annotated identity (at the root or where the type is evident); r6 `if true then e else e`; r7 two adjacent function definitions that do not mention each other swapped; a third of the base programs are groups at the boundary of the definition-order rule (functions in value and non-value form mentioning earlier, later and nested definitions) rewritten mostly at the roots of their definitions, the rewritten program being in the domain when it still satisfies the rule as documented (R-order); oracle (no reference semantics) = the rewritten program is accepted, gram's own conversion judges the two reported types equal, and the `step` loop ends the same way (same literal / same kind; structurally identical value for parentheses-only rewrites); `gram check` / `gram run` exit status and printed value compared on a sample; non-trivial = at least one rewrite site below the root; per-rewrite counts are in the evidence; distinct by program pair",
+        rule: "accepted type-directed generated programs (a quarter annotation-erased), each subjected to 1-4 rewrites at generated sites: r1 consistent renaming of a subset of binders to fresh names from ASCII / keyword-like / non-ASCII pools; r2 redundant parentheses around any node; r3 an unused definition (value and non-value, annotated or not) wrapped around any node or inserted at any position of an existing group; r4 a node named by a definition (with and without annotation); r5 a node wrapped in an immediately applied annotated identity (at the root or where the type is evident); r6 `if true then e else e`; r7 two adjacent function definitions swapped (functions that mention each other only when both are fully annotated); a third of the base programs are groups at the boundary of the definition-order rule (functions in value and non-value form mentioning earlier, later and nested definitions) rewritten mostly at the roots of their definitions, the rewritten program being in the domain when it still satisfies the rule as documented (R-order); oracle (no reference semantics) = the rewritten program is accepted, gram's own conversion judges the two reported types equal, and the `step` loop ends the same way (same literal / same kind; structurally identical value for parentheses-only rewrites); `gram check` / `gram run` exit status and printed value compared on a sample; non-trivial = at least one rewrite site below the root; per-rewrite counts are in the evidence; distinct by program pair",
         assumptions: vec!["int / bool results of `gram run` print identically for both programs (no names involved)"],
         idle_limit_s: 180,
         needs_cli: true,
